@@ -7,6 +7,7 @@ reduction identity over ℝ.
 -/
 import NumqiProofs.PartialTrace
 import NumqiProofs.Dicke
+import NumqiProofs.DickeReduction
 import Mathlib.Analysis.Real.Sqrt
 import Mathlib.Data.Complex.Basic
 import Mathlib.Data.Complex.BigOperators
@@ -264,16 +265,15 @@ noncomputable def coef (n r s : ℕ) (a b : List ℕ) : ℝ :=
 noncomputable def tableC (n d : ℕ) (q : ℕ) : List (ℕ × ℕ × ℂ) :=
   (bijTable n d (q / d) (q % d)).map fun e => (e.1, e.2.1, ((√((e.2.2 : ℚ) : ℝ) : ℝ) : ℂ))
 
-/-- **Target statement (full strength)**: for every `ψ ∈ A ⊗ Sym^{n+1}(B)` the fast reduction assembled from the index
-table equals embedding with the Dicke basis and tracing out `n` copies explicitly. -/
+/-- **Target statement (full strength, proved below as `dicke_reduction_eq`)**: for every `ψ ∈ A ⊗ Sym^{n+1}(B)` the fast
+reduction assembled from the index table equals embedding with the Dicke basis and tracing out `n` copies explicitly. -/
 def DickeReduction.Statement : Prop :=
   ∀ (d n : ℕ) (_ : 2 ≤ d) (ψ : ℕ → ℕ → ℂ) (α β r s : ℕ) (_ : r < d) (_ : s < d),
     @Dicke.assembleAB ℂ _ _ _ ⟨starRingEnd ℂ⟩ d (tableC (n + 1) d) ψ (α * d + r) (β * d + s) = explicitAB d n ψ α r β s
 
-/-- **Proved part of the reduction identity**: the explicit reduction is the double sum over pairs of Dicke vectors with the
-closed-form coefficient `√(a_r b_s)/(n+1)·[a − e_r = b − e_s]` (what remains for `DickeReduction.Statement` is that the index
-table lists exactly the pairs with non-zero coefficient — list bookkeeping which the correspondence check compares exactly on
-every run and `bijTable_lists_coef_support` below checks for small sizes). -/
+/-- **Analytic half of the reduction identity**: the explicit reduction is the double sum over pairs of Dicke vectors with the
+closed-form coefficient `√(a_r b_s)/(n+1)·[a − e_r = b − e_s]`.  (The combinatorial half — the index table lists exactly the
+pairs with non-zero coefficient, with `value = coefficient` — is `Dicke.row_sum`; together they give `dicke_reduction_eq`.) -/
 theorem dicke_reduction_partial (d n : ℕ) (hd : 1 ≤ d) (ψ : ℕ → ℕ → ℂ) (α β r s : ℕ) (hr : r < d) (hs : s < d) :
     explicitAB d n ψ α r β s =
       ∑ i ∈ range (klist d (n + 1)).length, ∑ j ∈ range (klist d (n + 1)).length,
@@ -313,6 +313,33 @@ theorem dicke_reduction_partial (d n : ℕ) (hd : 1 ≤ d) (ψ : ℕ → ℕ →
   refine sum_congr rfl fun y _ => ?_
   ring
 
+theorem coef_eq_coefN (n r s : ℕ) (a b : List ℕ) : coef n r s a b = coefN (n + 1) r s a b := by
+  unfold coef coefN
+  by_cases h : Cond r s a b
+  · have h' : 0 < a.getD r 0 ∧ 0 < b.getD s 0 ∧ a.set r (a.getD r 0 - 1) = b.set s (b.getD s 0 - 1) := h
+    rw [if_pos h, if_pos h', Nat.cast_add, Nat.cast_one]
+  · have h' : ¬ (0 < a.getD r 0 ∧ 0 < b.getD s 0 ∧ a.set r (a.getD r 0 - 1) = b.set s (b.getD s 0 - 1)) := h
+    rw [if_neg h, if_neg h']
+
+/-- **The fast reduction equals embedding with the Dicke basis and tracing out the copies explicitly** — the target statement,
+for every `(copies, dimension)`, every vector of `A ⊗ Sym^{n+1}(B)` and every entry of the reduced matrix. -/
+theorem dicke_reduction_eq : DickeReduction.Statement := by
+  intro d n hd ψ α β r s hr hs
+  have hd1 : 1 ≤ d := by omega
+  rw [dicke_reduction_partial d n hd1 ψ α β r s hr hs]
+  unfold Dicke.assembleAB tableC
+  simp only [div_of_lt hr, mod_of_lt hr, div_of_lt hs, mod_of_lt hs]
+  rw [foldr_eq_sum_map, List.map_map, bijTable_eq]
+  have hfun : ((fun e : ℕ × ℕ × ℂ => ψ α e.1 * e.2.2 * (starRingEnd ℂ) (ψ β e.2.1)) ∘
+      fun e : ℕ × ℕ × ℚ => (e.1, e.2.1, ((√((e.2.2 : ℚ) : ℝ) : ℝ) : ℂ)))
+      = fun e : ℕ × ℕ × ℚ => ψ α e.1 * (starRingEnd ℂ) (ψ β e.2.1) * wRoot e.2.2 := by
+    funext e; simp only [Function.comp, wRoot]; ring
+  rw [hfun, sum_filterMap_range]
+  refine sum_congr rfl fun i hi => ?_
+  refine Eq.trans (row_sum (n + 1) d r s hd1 hr hs i (mem_range.1 hi) (fun i j => ψ α i * (starRingEnd ℂ) (ψ β j))) ?_
+  refine sum_congr rfl fun j _ => ?_
+  rw [coef_eq_coefN]
+
 /-- rational square of `coef` for total copy number `n` -/
 def coefSq (n r s : ℕ) (a b : List ℕ) : ℚ :=
   if 0 < a.getD r 0 ∧ 0 < b.getD s 0 ∧ a.set r (a.getD r 0 - 1) = b.set s (b.getD s 0 - 1)
@@ -336,8 +363,8 @@ def tableMatches (n d : ℕ) : Bool :=
       let hits := t.filter fun e => decide (e.1 = i ∧ e.2.1 = j)
       decide (hits.length ≤ 1) && decide ((hits.map (·.2.2)).sum = coefSq n (q / d) (q % d) (kl.getD i []) (kl.getD j []))
 
-/-- the index table lists exactly the support of the closed-form coefficient, checked by kernel evaluation for
-`(n, d)` with `n ≤ 4, d ≤ 3` and `n ≤ 3, d = 4` (all sizes: compared with the implementation's table on every run) -/
+/-- independent finite cross-check by kernel evaluation: for `(n, d)` with `n ≤ 4, d ≤ 3` and `n ≤ 3, d = 4` the executed table
+holds, for every `(r,s)` and `(i,j)`, at most one triple, indices in range, and `value² = coefSq` (all sizes: `dicke_reduction_eq`) -/
 theorem bijTable_lists_coef_support :
     tableMatches 1 2 = true ∧ tableMatches 2 2 = true ∧ tableMatches 3 2 = true ∧ tableMatches 4 2 = true ∧
     tableMatches 1 3 = true ∧ tableMatches 2 3 = true ∧ tableMatches 3 3 = true ∧ tableMatches 4 3 = true ∧
